@@ -107,6 +107,8 @@ def plan(tier, seed):
         for s in range(0, total, 256):
             e = min(total, s + 256)
             units.append({"kind": "subenum", "H": H, "W": W, "start": s, "stop": e, "w": (e - s) * 6 * (2.3 + 0.6 * H * W)})
+    if tier == "thorough":
+        units.append({"kind": "suite", "w": 200})      # the repository's own tests with the contracts installed
     return units
 
 
